@@ -7,4 +7,5 @@ import (
 )
 
 // FuzzGen: coverage-guided search over the generators of this package (see pbt.FuzzGen).
-func FuzzGen(f *testing.F) { pbt.FuzzGen(f) }
+// text-born is left out: its cases are texts, and FuzzTextBorn mutates those directly.
+func FuzzGen(f *testing.F) { pbt.FuzzGen(f, "text-born") }
